@@ -13,6 +13,7 @@ import (
 	"strings"
 
 	connect "github.com/bufbuild/connect-go"
+	"google.golang.org/protobuf/types/known/wrapperspb"
 )
 
 // S-req (C07): arbitrary request bodies / headers into real handlers.
@@ -487,12 +488,126 @@ func sealedProbe(c *Ctx) {
 	}
 }
 
+// nilConstructorProbe (F22): WithCompression with nil constructors is documented as a no-op. A
+// handler configured that way must treat the name as unknown - reject it as unimplemented, never
+// panic inside a pool whose constructors are nil.
+func nilConstructorProbe(c *Ctx) {
+	for _, proto := range []string{"connect", "grpc", "grpcweb"} {
+		for _, kind := range []string{"unary", "client"} {
+			for _, how := range []string{"sent", "accepted"} {
+				runs := 0
+				opts := []connect.HandlerOption{connect.WithCodec(rawCodec{"raw"}), connect.WithCompression("zz", nil, nil), connect.WithCompressMinBytes(0)}
+				var h http.Handler
+				if kind == "unary" {
+					h = connect.NewUnaryHandler("/s/m", func(ctx context.Context, r *connect.Request[[]byte]) (*connect.Response[[]byte], error) {
+						runs++
+						return connect.NewResponse(&[]byte{1, 2, 3}), nil
+					}, opts...)
+				} else {
+					h = connect.NewClientStreamHandler("/s/m", func(ctx context.Context, s *connect.ClientStream[[]byte]) (*connect.Response[[]byte], error) {
+						runs++
+						for s.Receive() {
+						}
+						return connect.NewResponse(&[]byte{1, 2, 3}), s.Err()
+					}, opts...)
+				}
+				desc := fmt.Sprintf("%s %s handler with WithCompression(\"zz\", nil, nil); the request names zz as %s", proto, kind, how)
+				c.Begin(desc)
+				c.Count("nil-constructor-probe")
+				got := safely(func() string {
+					body := []byte{9, 9, 9}
+					fl := byte(0)
+					if how == "sent" {
+						fl = 1
+					}
+					if !(proto == "connect" && kind == "unary") {
+						body = frame(fl, body)
+					}
+					req := httptest.NewRequest(http.MethodPost, "/s/m", bytes.NewReader(body))
+					req.ProtoMajor, req.ProtoMinor, req.Proto = 2, 0, "HTTP/2.0"
+					req.Header.Set("Content-Type", ctFor(proto, kind, "raw"))
+					encH, accH := encHeaderFor(proto, kind)
+					if how == "sent" {
+						req.Header.Set(encH, "zz")
+					} else {
+						req.Header.Set(accH, "zz")
+					}
+					rec := httptest.NewRecorder()
+					h.ServeHTTP(rec, req)
+					code, _ := responseErrorCode(proto, kind, rec)
+					respEnc := rec.Result().Header.Get(encH)
+					return fmt.Sprintf("runs=%d code=%d response-encoding=%q", runs, code, respEnc)
+				})
+				want := "runs=0 code=12 response-encoding=\"\""
+				if how == "accepted" {
+					want = "runs=1 code=0 response-encoding=\"\""
+				}
+				if got != want {
+					c.Fail("req-nil-constructors", desc, got, "an algorithm registered with nil constructors is not registered at all: "+want)
+				}
+			}
+		}
+	}
+}
+
+// invalidUTF8PayloadProbe (F23): a JSON payload that is not valid UTF-8 is an undecodable payload
+// like any other: invalid_argument in a well-formed response. (The decoder's complaint quotes the
+// offending bytes, so the *error text* is not valid UTF-8 either - which must not cost the error
+// its code or the response its shape.)
+func invalidUTF8PayloadProbe(c *Ctx) {
+	for _, proto := range []string{"connect", "grpc", "grpcweb"} {
+		for _, kind := range []string{"unary", "client"} {
+			for _, payload := range []string{"\xff", "{\"value\":\"\xff\xfe\"}", "{\"value\":\xff}"} {
+				runs := 0
+				var h http.Handler
+				if kind == "unary" {
+					h = connect.NewUnaryHandler("/s/m", func(ctx context.Context, r *connect.Request[wrapperspb.StringValue]) (*connect.Response[wrapperspb.StringValue], error) {
+						runs++
+						return connect.NewResponse(&wrapperspb.StringValue{}), nil
+					})
+				} else {
+					h = connect.NewClientStreamHandler("/s/m", func(ctx context.Context, s *connect.ClientStream[wrapperspb.StringValue]) (*connect.Response[wrapperspb.StringValue], error) {
+						runs++
+						for s.Receive() {
+						}
+						if s.Err() != nil {
+							return nil, s.Err()
+						}
+						return connect.NewResponse(&wrapperspb.StringValue{}), nil
+					})
+				}
+				desc := fmt.Sprintf("%s %s handler, JSON codec, payload %q", proto, kind, payload)
+				c.Begin(desc)
+				c.Count("invalid-utf8-payload-probe")
+				got := safely(func() string {
+					body := []byte(payload)
+					if !(proto == "connect" && kind == "unary") {
+						body = frame(0, body)
+					}
+					req := httptest.NewRequest(http.MethodPost, "/s/m", bytes.NewReader(body))
+					req.ProtoMajor, req.ProtoMinor, req.Proto = 2, 0, "HTTP/2.0"
+					req.Header.Set("Content-Type", ctFor(proto, kind, "json"))
+					rec := httptest.NewRecorder()
+					h.ServeHTTP(rec, req)
+					code, note := responseErrorCode(proto, kind, rec)
+					return fmt.Sprintf("code=%d malformed=%q", code, strings.TrimSpace(note))
+				})
+				if got != "code=3 malformed=\"\"" {
+					c.Fail("req-invalid-utf8-payload", desc, got, "an undecodable payload must reach the peer as invalid_argument in a response that is well-formed for the protocol")
+				}
+			}
+		}
+	}
+}
+
 func streamReq(c *Ctx) {
 	if replayOp != "" {
 		hreqOp(c, replayOp)
 		return
 	}
 	sealedProbe(c)
+	nilConstructorProbe(c)
+	invalidUTF8PayloadProbe(c)
 	r := c.Rng
 	protos := []string{"connect", "grpc", "grpcweb"}
 	kinds := []string{"client", "bidi", "unary", "server"}
